@@ -328,10 +328,23 @@ func newTrial(fc *frameCfg, fm fmtCfg, limit int) *trial {
 // the terminal condition.
 func (t *trial) feed(steps [][]byte, chunk int) {
 	t.rig.T.SetMaxReadChunk(chunk)
-	for _, s := range steps {
+	total, last := 0, -1
+	for i, s := range steps {
+		total += len(s)
 		if len(s) > 0 {
-			t.rig.T.FeedBytes(s)
+			last = i
 		}
+	}
+	for i, s := range steps {
+		if len(s) == 0 {
+			continue
+		}
+		if i == last && total%2 == 1 {
+			// the peer's last bytes arrive together with end-of-stream (legal for an io.Reader)
+			t.rig.T.Feed(mon.ReadStep{Data: s, WithErr: io.EOF})
+			continue
+		}
+		t.rig.T.FeedBytes(s)
 	}
 	t.rig.T.SetTerminal(io.EOF)
 }
